@@ -16,11 +16,13 @@
     9      end_for
    10    end_block
    11    send_message | {{ghost}} | include_if {{off}}
-   12  end_for
-   13  E | begin_for y in {@ l0 @}
-   14    send_message | {{ghost}}
-   15  end_for
-   16  send_message | tail {{cx}}
+   12    send_message | only-{{x}} | include_if {{ x == "a" }}        (present in the first copy only)
+   13    send_message | {{ghost}} | include_if {{ i == "0" }}         (never: the index is an int, "0" a str)
+   14  end_for
+   15  E | begin_for y in {@ l0 @}
+   16    send_message | {{ghost}}
+   17  end_for
+   18  send_message | tail {{cx}}
 
    and the sheets/policies under which the statements fail (the code before the repairs). *)
 From Coq Require Import List NArith Bool Arith Lia String Ascii.
@@ -47,6 +49,8 @@ Definition ex_rows : list raw :=
         x_end KEndFor;
       x_end KEndBlock;
       x_plain (IncRef (S_ "off")) [] [Ref (S_ "ghost")];
+      x_plain (IncCmp (S_ "x") true (S_ "a")) [] [Lit (S_ "only-"); Ref (S_ "x")];
+      x_plain (IncCmp (S_ "i") true (S_ "0")) [] [Ref (S_ "ghost")];
     x_end KEndFor;
     mkRaw KBeginFor IncTrue [Lit (S_ "E")] [] [S_ "y"] (IRef (S_ "l0"));
       x_plain IncTrue [] [Ref (S_ "ghost")];
@@ -62,7 +66,7 @@ Definition ex_out : list raw :=
   [ l_plain "first" "hi CXVAL";
     l_block "LCXVAL";
       l_block "Ma"; l_plain "" "0:p0"; l_plain "" "0:q1"; end_row;
-      l_plain "" "a0 CXVAL";
+      l_plain "" "a0 CXVAL"; l_plain "" "only-a";
       l_block "Mb"; l_plain "" "1:p0"; l_plain "" "1:q1"; end_row;
       l_plain "" "b1 CXVAL";
     end_row;
@@ -73,7 +77,7 @@ Definition i_row (text : string) : item := IRow [] (S_ text).
 Definition ex_shape : list item :=
   [ IRow (S_ "first") (S_ "hi CXVAL");
     IGroup (S_ "LCXVAL")
-      [ IGroup (S_ "Ma") [i_row "0:p0"; i_row "0:q1"]; i_row "a0 CXVAL";
+      [ IGroup (S_ "Ma") [i_row "0:p0"; i_row "0:q1"]; i_row "a0 CXVAL"; i_row "only-a";
         IGroup (S_ "Mb") [i_row "1:p0"; i_row "1:q1"]; i_row "b1 CXVAL" ];
     IGroup (S_ "E") [];
     i_row "tail CXVAL" ].
@@ -93,8 +97,8 @@ Proof.
   exists s, s'. vm_compute in E, E'. inversion E; inversion E'; subst. repeat split; vm_compute; reflexivity.
 Qed.
 
-(* a failing sheet: the same with row 16 naming an unknown variable *)
-Definition ex_bad : list raw := firstn 16 ex_rows ++ [x_plain IncTrue [] [Ref (S_ "ghost")]].
+(* a failing sheet: the same with row 18 naming an unknown variable *)
+Definition ex_bad : list raw := firstn 18 ex_rows ++ [x_plain IncTrue [] [Ref (S_ "ghost")]].
 Example desugar_error_iff_nonvacuous :
   run_sheet Strict ex_bad ex_ctx = RErr Undefined /\ desugar Strict ex_ctx ex_bad = RErr Undefined
   /\ run_sheet Strict (firstn 12 ex_rows) ex_ctx = RErr Unterminated
@@ -103,6 +107,9 @@ Proof. repeat split; vm_compute; reflexivity. Qed.
 
 (* ---- excluded content: in the first copy of the outer body (x = a, i = 0) *)
 Definition ex_c0 : ctx := bind_loop ex_ctx (S_ "x") (Some (S_ "i")) (S_ "a") 0.
+Definition ex_c1 : ctx := bind_loop ex_ctx (S_ "x") (Some (S_ "i")) (S_ "b") 1.
+Definition ex_only_a : list raw := [l_plain "" "only-a"].
+Definition n_0 := S_ "0".
 
 Example excluded_content_nonvacuous :
   (* row 11: include_if {{off}} is false; its text could not be rendered *)
@@ -114,12 +121,19 @@ Example excluded_content_nonvacuous :
      /\ eval_inc Strict ex_c0 (rw_inc r) = ROk false /\ rw_kind r = KBeginBlock
      /\ render Strict ex_c0 (rw_id r) = RErr Undefined
      /\ ds Strict 50 rest ex_c0 BBlock true = ROk ([], skipn 11 ex_rows)
-     /\ ds Strict 50 (skipn 6 ex_rows) ex_c0 BFor false = ROk ([], skipn 13 ex_rows)).
+     /\ ds Strict 50 (skipn 6 ex_rows) ex_c0 BFor false = ROk (ex_only_a, skipn 15 ex_rows))
+  (* rows 12, 13: comparison cells: x == "a" holds in the first copy only; the index (an int) never equals "0" *)
+  /\ (eval_inc Strict ex_c0 (rw_inc (nth 12 ex_rows end_row)) = ROk true
+      /\ eval_inc Strict ex_c1 (rw_inc (nth 12 ex_rows end_row)) = ROk false
+      /\ eval_inc Strict ex_c0 (rw_inc (nth 13 ex_rows end_row)) = ROk false
+      /\ render Strict ex_c0 [Ref (S_ "i")] = ROk n_0
+      /\ eval_inc Strict ex_ctx (rw_inc (nth 12 ex_rows end_row)) = RErr Undefined).
 Proof.
-  split; eexists; eexists; (split; [reflexivity|]); repeat split; vm_compute; reflexivity.
+  split; [|split]; [| |repeat split; vm_compute; reflexivity];
+    eexists; eexists; (split; [reflexivity|]); repeat split; vm_compute; reflexivity.
 Qed.
 
-(* ---- the loops: the premises of ds_nested_loops at row 1, and of ds_loop_empty at row 13 *)
+(* ---- the loops: the premises of ds_nested_loops at row 1, and of ds_loop_empty at row 15 *)
 Definition n_x := S_ "x".   Definition n_i := S_ "i".   Definition n_cx := S_ "cx".   Definition n_y := S_ "y".
 Definition ex_outer_elems : list str := [S_ "a"; S_ "b"].
 (* the inner head as read in the two copies of the outer body *)
@@ -129,15 +143,15 @@ Definition ex_heads : list irow :=
 Definition ex_inner : list (list (list raw)) :=
   [[[l_plain "" "0:p0"]; [l_plain "" "0:q1"]]; [[l_plain "" "1:p0"]; [l_plain "" "1:q1"]]].
 (* the rest of the outer body after the inner loop (the excluded block and row are gone) *)
-Definition ex_tails : list (list raw) := [[l_plain "" "a0 CXVAL"]; [l_plain "" "b1 CXVAL"]].
+Definition ex_tails : list (list raw) := [[l_plain "" "a0 CXVAL"; l_plain "" "only-a"]; [l_plain "" "b1 CXVAL"]].
 Definition ex_after_loops : list raw := [l_plain "" "tail CXVAL"].
 Definition ex_empty_block : list raw := [l_block "E"; end_row; l_plain "" "tail CXVAL"].
 Example nested_loops_nonvacuous :
   exists row1,
     loop_head Strict ex_ctx (nth 1 ex_rows end_row) row1 n_x [n_i] /\ i_iter row1 = ex_outer_elems
     /\ nested_bodies_of Strict 40 (nth 2 ex_rows end_row) (skipn 3 ex_rows) ex_ctx n_x (Some n_i) ex_outer_elems
-         n_cx [n_x] ex_heads ex_inner ex_tails (skipn 13 ex_rows)
-    /\ ds Strict 41 (skipn 13 ex_rows) ex_ctx BRoot false = ROk (skipn 13 ex_out, [])
+         n_cx [n_x] ex_heads ex_inner ex_tails (skipn 15 ex_rows)
+    /\ ds Strict 41 (skipn 15 ex_rows) ex_ctx BRoot false = ROk (skipn 14 ex_out, [])
     /\ ds Strict 42 (skipn 1 ex_rows) ex_ctx BRoot false = ROk (skipn 1 ex_out, []).
 Proof.
   eexists. split; [|split; [|split; [|split]]].
@@ -163,10 +177,10 @@ Qed.
 
 Example empty_loop_nonvacuous :
   exists row,
-    loop_head Strict ex_ctx (nth 13 ex_rows end_row) row n_y [] /\ i_iter row = []
-    /\ ds Strict 40 (skipn 14 ex_rows) ex_ctx BFor true = ROk ([], skipn 16 ex_rows)
-    /\ ds Strict 40 (skipn 16 ex_rows) ex_ctx BRoot false = ROk (ex_after_loops, [])
-    /\ ds Strict 41 (skipn 13 ex_rows) ex_ctx BRoot false = ROk (ex_empty_block, []).
+    loop_head Strict ex_ctx (nth 15 ex_rows end_row) row n_y [] /\ i_iter row = []
+    /\ ds Strict 40 (skipn 16 ex_rows) ex_ctx BFor true = ROk ([], skipn 18 ex_rows)
+    /\ ds Strict 40 (skipn 18 ex_rows) ex_ctx BRoot false = ROk (ex_after_loops, [])
+    /\ ds Strict 41 (skipn 15 ex_rows) ex_ctx BRoot false = ROk (ex_empty_block, []).
 Proof.
   eexists. split.
   { repeat split; try (vm_compute; reflexivity). discriminate. }
@@ -209,7 +223,7 @@ Proof.
   vm_compute. discriminate.
 Qed.
 
-(* the body of a loop over nothing left to the enclosing block (EmptyFallThrough): row 14 is read with y
+(* the body of a loop over nothing left to the enclosing block (EmptyFallThrough): row 16 is read with y
    unbound (here: an unknown name); and a begin_for over nothing with NO end_for is accepted *)
 Definition ft_rows : list raw :=
   [ mkRaw KBeginFor IncTrue [Lit (S_ "E")] [] [S_ "y"] (ILit []); x_plain IncTrue [] [Lit (S_ "a")] ].
